@@ -11,6 +11,8 @@ func contextCancelled() (context.Context, context.CancelFunc) {
 	return ctx, cancel
 }
 
+func contextBackground() context.Context { return context.Background() }
+
 type sliceReader struct {
 	b []byte
 	i int
